@@ -416,6 +416,13 @@ func c10Alignment(c *Ctx, m *Module) {
 		}
 	}
 	r.Check("C10.alignment", "place/first record starts after the hash table", m.Pos(pl.Pos()), okFirst, "limit 0 means hdrLen + hashOff + 4·numHash")
+	c10PageTest(c, m, "C10.page-tail")
+}
+
+// c10PageTest: place() moves a record that would END at a page boundary to the next page.
+func c10PageTest(c *Ctx, m *Module, rule string) {
+	r := c.R
+	pl := m.Func("internal/counter", "mappedFile.place")
 	// page-crossing test: start/pageSize != (start+n)/pageSize  (constant term 0, not -1)
 	okPage := false
 	for _, in := range instrsOf(pl) {
@@ -433,7 +440,7 @@ func c10Alignment(c *Ctx, m *Module) {
 			}
 		}
 	}
-	r.Check("C10.page-tail", "place/page test compares start/pageSize with (start+n)/pageSize", m.Pos(pl.Pos()), okPage,
+	r.Check(rule, "place/page test compares start/pageSize with (start+n)/pageSize", m.Pos(pl.Pos()), okPage,
 		"a record that would END exactly at a page boundary is moved to the next page (no -1): the last bytes of every page are reserved for extend")
 }
 
